@@ -5,12 +5,17 @@
   BOOL     boolean byte: arms 0, 1, other => Err
   UTF8     every &str handed to a visitor from input bytes passed str::from_utf8
   INDEX    union / enum indices go through `.get(i)` with None => Err, i being the decoded discriminant itself; no
-           table is indexed directly by a decoded discriminant unless a `.get` on this path already answered Some
+           table is indexed directly by a decoded discriminant unless a `.get` on this path already answered Some; an
+           enum presented as its raw index (u64 hint) is compared with symbols.len()           (found F18)
   LENGTHS  i64 -> usize conversions of lengths / discriminants are checked (try_into + error), no lossy `as`
   BOUNDS   slice reads are bounded (n > len => Err)
   BLOCKS   block-header protocol of arrays/maps (negative count => byte size read on both paths, no overflowing
            negation, zero count ends, countdown re-enters the header read at zero)
            the only skip in the block header is the one by the advertised byte size (no computed skip)
+  NEWTYPE  serde's newtype struct is transparent on both sides (serializer forwards the inner value; deserializer answers
+           deserialize_newtype_struct with visit_newtype_struct(self))                        (found F17; shared C01, C20)
+  SEQEND   every visit_seq over an array access lends the access and reads the array to its end marker afterwards
+           (fixed-length visitors stop early)                                                  (found F19)
   SHORTREAD no plain io::Read::read judged by its count outside forwarding Read implementations (shared with C11)
 It does NOT decide that the produced value is *the* value.
 """
